@@ -1,5 +1,8 @@
 """C09 — only the leader writes status; the newest status survives a leadership change (DESIGN.md §6 C09)."""
 import collections
+import os
+
+CORPUS = os.path.join(os.path.dirname(os.path.dirname(os.path.abspath(__file__))), "corpus", "C09")
 
 
 def _parts(line):
@@ -8,15 +11,49 @@ def _parts(line):
 
 def run(ctx):
     ctx.prepare()
-    ctx.obligations("NGF.Props.C09")
-    if ctx.tier == "thorough":
-        ctx.leanchecker("NGF.Props.C09")
+    # The Generated/ directory is shared by all checks: another check (possibly against another tree) may
+    # regenerate it between prepare() and the build.  Regenerate from THIS tree and build the obligations
+    # while holding the translator lock (lock order translator -> build, never the reverse anywhere).
+    import vcheck
+    with vcheck.Lock("translator"):
+        vcheck.sh([vcheck.TRANSLATOR_BIN, "-repo", vcheck.REPO, "-out", vcheck.GENERATED])
+        ctx.obligations("NGF.Props.C09")
+        if ctx.tier == "thorough":
+            ctx.leanchecker("NGF.Props.C09")
+
+    # corpus first: (a) the judge still separates the recorded good and bad histories (guards the judge),
+    # (b) the recorded operation lists are replayed on the real code
+    expect = [l.rstrip("\n").split("\t") for l in open(os.path.join(CORPUS, "judge_expect.tsv")) if "\t" in l]
+    got = ctx.driver("judge", [e[1] for e in expect])
+    for (want, hist), g in zip(expect, got):
+        if want != g:
+            ctx.broken(f"judge regression: corpus history expected '{want}', judge says '{g}'",
+                       kind="obligation", replay={"judge_input": hist})
+    corpus_lines = ctx.harness(["-replay", os.path.join(CORPUS, "ops.txt")]) or []
 
     n_seq, n_conc, maxops = (400, 1500, 10) if ctx.tier == "quick" else (10000, 60000, 14)
     seq = ctx.harness(["-seed", ctx.seed, "-n", n_seq, "-maxops", maxops])
     seq_rc, seq_err = getattr(ctx, "harness_rc", 0), getattr(ctx, "harness_err", "")
-    conc = ctx.harness(["-seed", ctx.seed + 7919, "-n", n_conc, "-conc"])
-    conc_rc, conc_err = getattr(ctx, "harness_rc", 0), getattr(ctx, "harness_err", "")
+    # concurrent histories: the cases mostly sleep (jitter inside the client), so run shards side by side
+    shards = 2 if ctx.tier == "quick" else 12
+    conc, conc_rc, conc_err = [], 0, ""
+    binp = os.path.join(getattr(ctx, "bindir", ""), "c09")
+    if os.path.exists(binp):
+        import concurrent.futures
+        import subprocess
+
+        def shard(i):
+            try:
+                p = subprocess.run([binp, "-seed", str(ctx.seed + 7919 + 104729 * i), "-n", str(n_conc // shards),
+                                    "-conc"], capture_output=True, text=True, timeout=1500)
+                return p.returncode, p.stdout.splitlines(), p.stderr[-3000:]
+            except subprocess.TimeoutExpired:
+                return -1, [], "timeout"
+        with concurrent.futures.ThreadPoolExecutor(shards) as ex:
+            for rc, out, err in ex.map(shard, range(shards)):
+                conc += out
+                if rc != 0:
+                    conc_rc, conc_err = rc, err
     if not getattr(ctx, "harness_ok", False):
         ctx.broken("harness does not build against the current tree", detail="\n".join(ctx.build_errors))
     seq, conc = seq or [], conc or []
@@ -28,7 +65,7 @@ def run(ctx):
 
     model_in, obs, judge_in, judge_kind = [], [], [], []
     inconclusive = collections.Counter()
-    for kind, lines in (("seq", seq), ("conc", conc)):
+    for kind, lines in (("seq", corpus_lines), ("seq", seq), ("conc", conc)):
         for l in lines:
             p = _parts(l)
             if "X" in p:
@@ -103,7 +140,8 @@ def run(ctx):
     nontrivial = len({m for m, o in zip(model_in, obs) if any(x not in "-;P" for x in o[5:])}) + \
         len({j for j, k in zip(judge_in, judge_kind) if k == "conc" and "writes=-" not in j})
     ctx.finish({
-        "evaluations": len(seq) + len(conc),
+        "evaluations": len(corpus_lines) + len(seq) + len(conc),
+        "corpus": {"judge_expectations": len(expect), "replayed_operation_lists": len(corpus_lines)},
         "distinct_nontrivial": nontrivial,
         "rule": "sequential operation lists over the real LeaderAwareGroupUpdater+Updater+EnableAfterBecameLeader "
                 "(model equality per operation + judge) and concurrent histories (judge: clauses on stamps + "
